@@ -144,12 +144,12 @@ PROPS = {
         partial="proved: checksum = bit-serial CRC-32; linearity; every <=32-bit burst inside the covered bytes and every change confined to the checksum field is detected; ReadRecord re-verifies; bad magic is an error; payload_damage_loses_only_that_record (a span with intact magic/length and failing checksum is stepped over: that record is 'not found', every other record reads back exactly what was written, nothing is fabricated, in every open mode) and payload_burst_is_damage (every <=32-bit burst behind the 8-byte header produces such an image). Proved negative: the 4-byte straddle burst 61d8|f4ee is undetected for every span (known finding). Header faults (magic/length/FREE headers) are covered by fault enumeration + model correspondence only; the forged-span construction shows they cannot be a theorem without a header checksum (known finding)",
     ),
     "C20": dict(
-        modules=["Syzgy.Props.C20"], ties=["Numeric"], tie_namespaces=["Dump"],
+        modules=["Syzgy.Props.C20", "Syzgy.Props.C20Quant"], ties=["Numeric"], tie_namespaces=["Dump"],
         runs={"quick": [["dump-C20", "--scenarios", "250"]], "thorough": [["dump-C20", "--scenarios", "4000"]]},
         trusted=NUMERIC_TRUST + ["strconv.FormatFloat(v,'g',-1,64) / encoding/json number parsing round-trip every float64 (parse ∘ fmt = id)",
                                  "encoding/json preserves JSON equality of metadata (Unmarshal ∘ Marshal, SetEscapeHTML(false), RawMessage)"],
         statement="round trip given parse ∘ fmt = id on stored components; %f survives b <= 16 only",
-        partial="the record-level round-trip theorem has parse∘fmt=id and quantizer idempotence (C12) as hypotheses; import_of_export_is_the_same_store lifts it to collections: the records ExportJSON walks, re-added to a new collection with the same options, represent the same abstract store (same ids, metadata bytes, codes); import_record ties the record ImportJSON decodes and the id format; that the export text is valid JSON for every JSON metadata value and that the streaming importer reads it back is checked on the implementation only",
+        partial="the record-level round-trip theorem has parse∘fmt=id and quantizer idempotence as hypotheses; roundtrip_quantized (Props/C20Quant.lean) discharges the second with C12's theorem for the model's own quantizeF/dequantizeF at exact arithmetic, every width b > 0 and all in-range codes, leaving only parse∘fmt=id (Go's shortest round-trip printing); import_of_export_is_the_same_store lifts it to collections: the records ExportJSON walks, re-added to a new collection with the same options, represent the same abstract store (same ids, metadata bytes, codes); import_record ties the record ImportJSON decodes and the id format; that the export text is valid JSON for every JSON metadata value and that the streaming importer reads it back is checked on the implementation only",
     ),
     "C10": dict(
         modules=["Syzgy.Props.C10"], ties=["Lock"], race=True,
